@@ -144,6 +144,8 @@ pub fn increment(b: &[u8]) -> (Impls, Option<Vec<u8>>) {
 }
 pub fn kdf(outlen: usize, id: u64, ctx: &[u8; 8], key: &[u8; 32]) -> (Impls, Option<Vec<u8>>) {
     let mut v: Impls = vec![];
+    // every third derivation follows an abandoned hash / MAC / signing state on the same thread
+    if (id ^ outlen as u64) % 3 == 0 { disturb(id ^ outlen as u64); }
     v.push(("crypto_kdf_derive_from_key".into(), { let mut o = vec![0xC3u8; outlen]; ck::crypto_kdf_derive_from_key(&mut o, id, ctx, key).map(|_| o).map_err(es) }));
     if outlen == 32 {
         let k: dryoc::kdf::Kdf<StackByteArray<32>, StackByteArray<8>> = dryoc::kdf::Kdf::from_parts(StackByteArray::from(key), StackByteArray::from(ctx));
@@ -281,6 +283,7 @@ pub fn cmd_sweep_c07(args: &[String]) {
         let outl = 16 + (rng.below(49) as usize);
         let gk = rng.bytes(64);
         if len % stride != first { continue; }
+        if len % 5 == 2 { disturb(len as u64); }
         for (fi, msg) in fillers.iter().enumerate() {
             let fname = ["random", "0xff", "zero"][fi]; let d = json!({"len": len, "filler": fname, "seed": seed});
             // generic hash: every digest/key extreme plus one random pair per length
@@ -292,6 +295,23 @@ pub fn cmd_sweep_c07(args: &[String]) {
             let (i, s) = sha512(msg); compare(&mut rep, "sha512", i, &[("libsodium", s.as_ref())], d.clone());
             let (i, s) = auth(&key32, msg); compare(&mut rep, "auth", i, &[("libsodium", s.as_ref())], d.clone());
             let (i, s) = shorthash(&key16, msg); compare(&mut rep, "shorthash", i, &[("libsodium", s.as_ref())], d.clone());
+            // the same bytes at every address alignment (a slice that starts 1..7 bytes into a word-aligned buffer): a result is a
+            // function of the bytes, not of where they lie
+            if fi == 0 {
+                for off in 1..8usize {
+                    let mut shifted: Vec<u64> = vec![0u64; (len + off) / 8 + 2];
+                    let bytes_: &mut [u8] = unsafe { std::slice::from_raw_parts_mut(shifted.as_mut_ptr() as *mut u8, shifted.len() * 8) };
+                    bytes_[off..off + len].copy_from_slice(msg);
+                    let m2 = &bytes_[off..off + len];
+                    let dd = json!({"len": len, "offset_in_aligned_buffer": off, "seed": seed});
+                    let (i, s) = shorthash(&key16, m2); compare(&mut rep, "shorthash (unaligned input)", i, &[("libsodium", s.as_ref())], dd.clone());
+                    if off == 1 + len % 7 {
+                        let (i, s) = generichash(m2, &gk[..32], 32); compare(&mut rep, "generichash (unaligned input)", i, &[("libsodium", s.as_ref())], dd.clone());
+                        let (i, s) = sha512(m2); compare(&mut rep, "sha512 (unaligned input)", i, &[("libsodium", s.as_ref())], dd.clone());
+                        let (i, s) = auth(&key32, m2); compare(&mut rep, "auth (unaligned input)", i, &[("libsodium", s.as_ref())], dd.clone());
+                    }
+                }
+            }
             // Poly1305: random key, and the keys that stress carries (r at its clamped maximum, s = 2^128-1)
             let mut kmax = [0xffu8; 32];
             for (j, b) in [0xffu8, 0xff, 0xff, 0x0f, 0xfc, 0xff, 0xff, 0x0f, 0xfc, 0xff, 0xff, 0x0f, 0xfc, 0xff, 0xff, 0x0f].iter().enumerate() { kmax[j] = *b; }
@@ -696,6 +716,22 @@ pub fn cmd_sweep_c13(args: &[String]) {
         let skp: dryoc::sign::SigningKeyPair<StackByteArray<32>, StackByteArray<64>> = dryoc::sign::SigningKeyPair::from_seed(&s);
         let skp2: dryoc::sign::SigningKeyPair<StackByteArray<32>, StackByteArray<64>> = dryoc::sign::SigningKeyPair::from_secret_key(StackByteArray::from(&esk));
         rep.evaluations += 3;
+        // the same routes with the keys held in containers without a length of their own
+        if i % 8 == 0 {
+            rep.evaluations += 2;
+            match catch(|| { let k: dryoc::sign::SigningKeyPair<Vec<u8>, Vec<u8>> = dryoc::sign::SigningKeyPair::from_secret_key(esk.to_vec()); (k.public_key.clone(), k.secret_key.clone()) }) {
+                Ok((p, k)) => if p != ep || k != esk { rep.fail("SigningKeyPair<Vec,Vec>::from_secret_key differs from libsodium", json!({"i": i})); },
+                Err(p) => rep.fail("SigningKeyPair<Vec,Vec>::from_secret_key panics", json!({"i": i, "panic": p})),
+            }
+            match catch(|| { let k: dryoc::sign::SigningKeyPair<Vec<u8>, Vec<u8>> = dryoc::sign::SigningKeyPair::from_seed(&s); (k.public_key.clone(), k.secret_key.clone()) }) {
+                Ok((p, k)) => if p != ep || k != esk { rep.fail("SigningKeyPair<Vec,Vec>::from_seed differs from libsodium", json!({"i": i})); },
+                Err(p) => rep.fail("SigningKeyPair<Vec,Vec>::from_seed panics", json!({"i": i, "panic": p})),
+            }
+            match catch(|| { let k: dryoc::keypair::KeyPair<Vec<u8>, Vec<u8>> = dryoc::keypair::KeyPair::from_secret_key(s2.to_vec()); k.public_key.clone() }) {
+                Ok(p) => { let mut w = [0u8; 32]; unsafe { so::crypto_scalarmult_base(w.as_mut_ptr(), s2.as_ptr()) }; if p != w { rep.fail("KeyPair<Vec,Vec>::from_secret_key differs from libsodium", json!({"i": i})); } },
+                Err(p) => rep.fail("KeyPair<Vec,Vec>::from_secret_key panics", json!({"i": i, "panic": p})),
+            }
+        }
         if dp != ep || dsk != esk { rep.fail("crypto_sign_seed_keypair differs from libsodium", json!({"i": i})); }
         {
             // in-place and per-curve entry points, into buffers that are not zero beforehand
@@ -796,7 +832,14 @@ pub fn cmd_sweep_c13(args: &[String]) {
         let salt = rng.bytes(16);
         // the key pair is the 32-byte Argon2 output whatever the configuration's hash/salt length settings are
         let hl = [32usize, 16, 33, 64, 128, 31][(i % 6) as usize];
-        let cfg = dryoc::pwhash::Config::interactive().with_opslimit(1 + i % 3).with_memlimit(8192 * (1 + i as usize)).with_hash_length(hl).with_salt_length(8 + (i as usize) % 24);
+        // the configuration is built in every order of the setters, from every preset (a setter keeps what the others set)
+        let (ol, ml, sl) = (1 + i % 3, 8192 * (1 + i as usize), 8 + (i as usize) % 24);
+        let cfg = match i % 4 {
+            0 => dryoc::pwhash::Config::interactive().with_opslimit(ol).with_memlimit(ml).with_hash_length(hl).with_salt_length(sl),
+            1 => dryoc::pwhash::Config::moderate().with_memlimit(ml).with_opslimit(ol).with_salt_length(sl).with_hash_length(hl),
+            2 => dryoc::pwhash::Config::sensitive().with_hash_length(hl).with_memlimit(ml).with_salt_length(sl).with_opslimit(ol),
+            _ => dryoc::pwhash::Config::interactive().with_opslimit(7).with_memlimit(ml).with_opslimit(ol).with_hash_length(hl).with_salt_length(sl),
+        };
         let kp: Result<dryoc::dryocbox::KeyPair, _> = dryoc::pwhash::PwHash::<Vec<u8>, Vec<u8>>::derive_keypair(&pw, salt.clone(), cfg);
         let mut want_sk = [0u8; 32];
         let rc = unsafe { so::crypto_pwhash(want_sk.as_mut_ptr(), 32, pw.as_ptr() as *const _, pw.len() as u64, salt.as_ptr(), 1 + i % 3, 8192 * (1 + i as usize), 2) };
